@@ -84,9 +84,12 @@ def c01(tier, seed, only=None):
     jobs = []
     for s in gen.f2_all(tier) + gen.f6_publish(tier):
         jobs.append(job(s, bounded(s, tier, dict(horizon=60), big=(4, 6), huge=(2, 4)), mons))
-    n1 = 2 if tier == "quick" else 2
-    for s in gen.f1_all(n1):
+    for s in gen.f1_all(2):
         jobs.append(job(s, dict(horizon=40), mons))
+    if tier != "quick":
+        # 3-task micro grammar with the command alphabet reduced to noop (complete within that alphabet)
+        for s in gen.f1_all(3, cmds=("noop",)):
+            jobs.append(job(s, dict(horizon=40), mons))
     dev = 2 if tier == "quick" else 3
     for s in gen.f3_all():
         jobs.append(job(s, dict(dev=gen.f3_dev(s, tier), horizon=150), mons))
@@ -495,6 +498,9 @@ def _all_defs(tier, f1_tasks=2):
         defs.append({"name": s.name, "wf": s.wf})
     for s in gen.f1_all(f1_tasks):
         defs.append({"name": s.name, "wf": s.wf})
+    if tier != "quick":
+        for s in gen.f1_all(3, cmds=("noop", "fail")):
+            defs.append({"name": s.name, "wf": s.wf})
     return defs
 
 
